@@ -60,7 +60,10 @@ class WebSocket(object):
             self.compression = None
             # Compressed messages must hit the wire in the order they
             # were compressed (the compression context is shared)
-            self.compress_lock = threading.Lock()
+            # (reentrant, a signal handler or a finaliser may send on
+            # the thread that is in the middle of a send)
+            self.compress_lock = threading.RLock()
+            self.compressing = False
 
     def __init__(self,
                  url,
@@ -546,8 +549,13 @@ class WebSocket(object):
         state = self.state
         if compress and state.compression:
             with state.compress_lock:
-                _payload = state.compression.compress(data)
+                if state.compressing:
+                    # Entered again on the thread that is in the middle
+                    # of a compressed send; messages can't be nested.
+                    raise errors.WebSocketBusy('send in progress')
+                state.compressing = True
                 try:
+                    _payload = state.compression.compress(data)
                     self._get_session(state).send_compressed(
                         Opcode.BINARY, _payload
                     )
@@ -556,6 +564,8 @@ class WebSocket(object):
                     # must not refer back to it
                     state.compression.reset_compressor()
                     raise
+                finally:
+                    state.compressing = False
         else:
             self._get_session(state).send(Opcode.BINARY, data)
 
@@ -602,8 +612,13 @@ class WebSocket(object):
         state = self.state
         if compress and state.compression:
             with state.compress_lock:
-                _payload = state.compression.compress(payload)
+                if state.compressing:
+                    # Entered again on the thread that is in the middle
+                    # of a compressed send; messages can't be nested.
+                    raise errors.WebSocketBusy('send in progress')
+                state.compressing = True
                 try:
+                    _payload = state.compression.compress(payload)
                     self._get_session(state).send_compressed(
                         Opcode.TEXT, _payload
                     )
@@ -612,6 +627,8 @@ class WebSocket(object):
                     # must not refer back to it
                     state.compression.reset_compressor()
                     raise
+                finally:
+                    state.compressing = False
         else:
             self._get_session(state).send(Opcode.TEXT, payload)
 
